@@ -378,6 +378,15 @@ def extRunMemo (K K' : RunCfg) (tail tail' : List TailStep) (V : CrossCheck.Vari
     some (fillOf F (dmapOfOut rows cols lr.1), fillOf F (dmapOfOut rows cols lr.2))
   | _, _ => none
 
+/-- the two bands (risk_max, risk_min) of a `cost_volume_confidence` step with method `risk` on the cost rows -/
+def riskOf (etas : List Rat) (x : MC.Input) (R : Nat → Nat → List Val) : Option (Grid (Val × Val)) :=
+  Confidence.computeRisk etas (volumeOf x.L.rows x.L.cols R)
+
+/-- the two bands (inf, sup) of a `cost_volume_confidence` step with method `interval_bounds` (no regularization) for a
+    "min" measure, possibility threshold `thr`, on the cost rows; `disps`: the disparity samples -/
+def boundsOf (thr : Rat) (disps : List Rat) (x : MC.Input) (R : Nat → Nat → List Val) : Option (Grid (Val × Val)) :=
+  Confidence.computeBounds false thr disps (volumeOf x.L.rows x.L.cols R)
+
 /-! ## the two-scale run: coarse chain, next-level interval grids (C15), fine chain on per-pixel grids -/
 
 /-- an interval grid of the multiscale model as a per-pixel grid of the matching-cost input (0 outside, NaN never
